@@ -14,6 +14,7 @@ import (
 	"github.com/XiaoMi/Gaea/backend"
 	"github.com/XiaoMi/Gaea/models"
 	"github.com/XiaoMi/Gaea/mysql"
+	"github.com/XiaoMi/Gaea/parser/ast"
 	"github.com/XiaoMi/Gaea/util"
 	vs "github.com/XiaoMi/Gaea/zz_verifsym"
 )
@@ -203,8 +204,8 @@ func vhSessRun(prop string, keepSession bool, k int, withFaults bool) {
 				}
 			}
 		}
-		cmd := vs.Choice("command", 8)
-		vs.TagB("statementRightAfterReload", reloadedNow && cmd >= 5)
+		cmd := vs.Choice("command", 9)
+		vs.TagB("statementRightAfterReload", reloadedNow && cmd >= 5 && cmd <= 7)
 		mark := s.mark()
 		var touched []string
 		var err error
@@ -241,6 +242,8 @@ func vhSessRun(prop string, keepSession bool, k int, withFaults bool) {
 			rc.SetFromSlave(rwSplit)
 			_, err = se.ExecuteSQL(rc, "s0", "db", "select * from u")
 			touched = []string{"s0"}
+		case 8: // SAVEPOINT sp1 (replayed on every connection the transaction takes later)
+			err = se.handleSavepoint(&ast.SavepointStmt{Savepoint: "sp1"})
 		case 7: // sharded statement on both slices
 			rc := util.NewRequestContext()
 			rc.SetFromSlave(false)
@@ -293,7 +296,7 @@ func vhSessRun(prop string, keepSession bool, k int, withFaults bool) {
 	vs.Cover(prop + "/session-done")
 }
 
-//verif:harness prop=C18 bounds="one session (no keep-session) of a read/write user, a read/write-splitting user or a read-only user on a namespace with two slices (scripted master and replica pools, no faults): every sequence of k=3 (quick) / 4 (thorough) commands from {BEGIN, COMMIT, ROLLBACK, SET autocommit=0, SET autocommit=1, unsharded write on slice 0, unsharded read on slice 0, sharded write on both slices}, then disconnect; driven through the real handleBegin / handleCommit / handleRollback / handleSetAutoCommit / ExecuteSQL / ExecuteSQLs"
+//verif:harness prop=C18 bounds="one session (no keep-session) of a read/write user, a read/write-splitting user or a read-only user on a namespace with two slices (scripted master and replica pools, no faults): every sequence of k=3 (quick) / 4 (thorough) commands from {BEGIN, COMMIT, ROLLBACK, SET autocommit=0, SET autocommit=1, unsharded write on slice 0, unsharded read on slice 0, sharded write on both slices, SAVEPOINT}, then disconnect; driven through the real handleBegin / handleCommit / handleRollback / handleSetAutoCommit / ExecuteSQL / ExecuteSQLs"
 //verif:mock (*github.com/XiaoMi/Gaea/proxy/server.Manager).RecordBackendSQLMetrics vhSessRecordMetrics
 func Harness_C18_TransactionConnections() {
 	vhSessRun("C18", false, vs.Pick(3, 4), false)
@@ -369,4 +372,123 @@ func Harness_C39_ShardedResults() {
 		vs.Assert(ok, "C39/results-in-slice-database-statement-order-with-all-their-rows")
 	}
 	vs.Cover("C39/sharded-done")
+}
+
+// ---- C39, client side: a streamed result reaches the client with every row ----
+
+// vhC39Stream is a backend connection that still has pieces of a large result to deliver.
+type vhC39Stream struct {
+	*backend.VhConn
+	pieces [][]byte // remaining pieces: one digit per row
+	fields []*mysql.Field
+}
+
+func (c *vhC39Stream) MoreRowsExist() bool { return len(c.pieces) > 0 }
+func (c *vhC39Stream) FetchMoreRows(r *mysql.Result, maxRows int) error {
+	p := c.pieces[0]
+	c.pieces = c.pieces[1:]
+	return vhC39Fill(r, p)
+}
+
+// vhC39Fill appends one row per digit, as the backend reader does: the text row and the parsed value.
+func vhC39Fill(r *mysql.Result, digits []byte) error {
+	for _, d := range digits {
+		row := mysql.RowData([]byte{1, d})
+		r.RowDatas = append(r.RowDatas, row)
+		v, err := row.Parse(r.Fields, false)
+		if err != nil {
+			return err
+		}
+		r.Values = append(r.Values, v)
+	}
+	return nil
+}
+
+func vhC39NoFlow(s *StatisticManager, namespace string, byteCount int) {}
+
+type vhC39Client struct {
+	vhNetConn
+	out []byte
+}
+
+func (c *vhC39Client) Write(b []byte) (int, error) { c.out = append(c.out, b...); return len(b), nil }
+
+//verif:harness prop=C39 bounds="a streamed unsharded result (first piece of 1..2 rows, then 0..2 further pieces of 1..2 rows fetched with FetchMoreRows; one BIGINT column, every value a symbolic digit) written to the client by the real Session.writeResponse / writeOKResultStream in the text and in the binary protocol; the bytes the client receives are decoded with an independent reader"
+//verif:mock (*github.com/XiaoMi/Gaea/proxy/server.StatisticManager).AddWriteFlowCount vhC39NoFlow
+func Harness_C39_StreamedToClient() {
+	s := vhSessSetup(false, false, false)
+	client := &vhC39Client{}
+	s.cc.c = &ClientConn{Conn: mysql.NewConn(client), manager: s.cc.manager}
+	s.cc.c.hasRecycledReadPacket.Set(false)
+	s.cc.c.namespace = "ns"
+	isBinary := vs.Choice("binary", 2) == 1
+	fields := []*mysql.Field{{Name: []byte("id"), Type: mysql.TypeLonglong, Charset: 63}}
+	digit := func() byte {
+		d := vs.Byte("digit")
+		vs.Assume(d >= '0' && d <= '9')
+		return d
+	}
+	var all []byte
+	piece := func() []byte {
+		n := vs.IntRange("rows", 1, 2)
+		p := make([]byte, n)
+		for i := range p {
+			p[i] = digit()
+		}
+		all = append(all, p...)
+		return p
+	}
+	first := piece()
+	pc := &vhC39Stream{VhConn: &backend.VhConn{AutoCommit: 1}, fields: fields}
+	for i, np := 0, vs.IntRange("morePieces", 0, 2); i < np; i++ {
+		pc.pieces = append(pc.pieces, piece())
+	}
+	rs := &mysql.Result{Resultset: &mysql.Resultset{Fields: fields}}
+	vs.Assert(vhC39Fill(rs, first) == nil, "C39/fixture")
+	s.cc.continueConn = pc
+	err := s.cc.writeResponse(CreateResultResponse(s.se.status, rs, isBinary))
+	if err != nil {
+		vs.Cover("C39/client-got-an-error")
+		return
+	}
+	if client.out == nil && s.cc.c.Conn != nil {
+		s.cc.c.Conn.Flush()
+	}
+	// independent reader of the client's bytes: column count, column definitions, EOF, rows, EOF
+	var packets [][]byte
+	for b := client.out; len(b) >= 4; {
+		n := int(b[0]) | int(b[1])<<8 | int(b[2])<<16
+		if len(b) < 4+n {
+			break
+		}
+		packets = append(packets, b[4:4+n])
+		b = b[4+n:]
+	}
+	isEOF := func(p []byte) bool { return len(p) > 0 && len(p) <= 5 && p[0] == mysql.EOFHeader }
+	i := 1 // skip the column count
+	for i < len(packets) && !isEOF(packets[i]) {
+		i++
+	}
+	i++
+	var got []byte
+	for ; i < len(packets) && !isEOF(packets[i]); i++ {
+		p := packets[i]
+		if isBinary {
+			vs.Assert(len(p) == 10 && p[0] == 0, "C39/binary-row-well-formed")
+			if len(p) == 10 {
+				got = append(got, '0'+p[2])
+			}
+		} else {
+			vs.Assert(len(p) == 2 && p[0] == 1, "C39/text-row-well-formed")
+			if len(p) == 2 {
+				got = append(got, p[1])
+			}
+		}
+	}
+	vs.Assert(i < len(packets), "C39/result-set-terminated")
+	vs.Assert(len(got) == len(all), "C39/client-receives-every-row-of-a-streamed-result")
+	for k := 0; k < len(all) && k < len(got); k++ {
+		vs.Assert(got[k] == all[k], "C39/rows-unchanged-and-in-order")
+	}
+	vs.Cover("C39/streamed-to-client-done")
 }
